@@ -4,6 +4,7 @@ Compilation itself is established per enumerated declaration by compiling; `unco
 is a model of the emitter's type discipline that must agree with the Go compiler on the enumerated slice.
 -/
 import InspectorModel.Gen.Select
+import InspectorModel.Proofs.C14
 namespace Inspector.C14
 
 /-- The registry returns what was registered last under a name. -/
@@ -61,5 +62,11 @@ theorem selected_once (bl names seen : List String) :
           have := ih'.2 n h
           intro hs
           exact this (List.mem_cons_of_mem _ hs)
+
+/-- What the compilability model accepts meets the structural hypothesis (`EmitOK`) under which the
+compare (C04) and length (C10) theorems are proved: the two models fit together. The model's verdict itself
+is tied to the Go compiler on every run (CM records: every enumerated shape, predicted vs `go build`). -/
+theorem compilable_meets_EmitOK (root : Node) (hwf : NodeWF root = true) (h : uncompilable root = none) :
+    EmitOK root = true := compilable_EmitOK root hwf h
 
 end Inspector.C14
